@@ -542,7 +542,14 @@ func (env *SpecEnv) asStr(v Val) Term {
 	case SliceV:
 		return env.in.mkStr(b, env.st, env.f)
 	case ArrV:
-		return App("mkstr", SStr, b.T, IntLit(0), IntLit(b.N))
+		n := b.N
+		if n == 0 {
+			n = b.BN
+		}
+		if n == 0 {
+			env.fail("str/asStr of an array value of unknown length (declare the binder with its named array type)")
+		}
+		return App("mkstr", SStr, b.T, IntLit(0), IntLit(n))
 	}
 	env.fail("cannot view %T as byte string", v)
 	return Term{}
@@ -558,6 +565,9 @@ func (env *SpecEnv) bytesView(v Val) (arr, off, ln Term) {
 	case SliceV:
 		return env.in.regionContent(env.st, b.Reg, env.f), b.Off, b.Len
 	case ArrV:
+		if b.N == 0 && b.BN != 0 {
+			return b.T, IntLit(0), IntLit(b.BN)
+		}
 		return b.T, IntLit(0), IntLit(b.N)
 	case PtrV:
 		return env.bytesView(env.in.load(env.st, b.To, env.f))
@@ -1025,7 +1035,7 @@ func (env *SpecEnv) evalQuant(x *SQuant) Val {
 		vars = append(vars, v)
 		var val Val = Sc{v}
 		if strings.HasPrefix(s, "(Array Int ") {
-			val = ArrV{T: v, ElemT: env.elemGoType(b.Type)}
+			val = ArrV{T: v, BN: env.arrLenOfName(b.Type), ElemT: env.elemGoType(b.Type)}
 		}
 		sub = sub.bind(b.Name, val)
 		// Go-typed binders range over the type's values
@@ -1091,7 +1101,7 @@ func (env *SpecEnv) callOpaqueSpecFunc(sf *SpecFunc, args []Val) Val {
 			vars = append(vars, v)
 			sorts = append(sorts, v.Sort)
 			if strings.HasPrefix(v.Sort, "(Array Int ") {
-				sub.vars[p.Name] = ArrV{T: v, ElemT: sub.elemGoType(p.Type)}
+				sub.vars[p.Name] = ArrV{T: v, BN: sub.arrLenOfName(p.Type), ElemT: sub.elemGoType(p.Type)}
 			} else {
 				sub.vars[p.Name] = Sc{v}
 			}
@@ -1172,6 +1182,19 @@ func (env *SpecEnv) snapshot(v Val, st *State, depth int) Val {
 
 // elemGoType: for a spec type name of the form []T or []*T with T a (structured) Go type of the
 // package, the Go element type; nil otherwise (scalars, byte strings, nested arrays).
+// arrLenOfName: the length of a named fixed-size array type (ids.ID, codec.Address), 0 otherwise.
+func (env *SpecEnv) arrLenOfName(name string) int64 {
+	if strings.HasPrefix(name, "[") || name == "bytes" || name == "string" {
+		return 0
+	}
+	if t := env.in.W.lookupType(env.pkgPath, name); t != nil {
+		if at, ok := t.Underlying().(*types.Array); ok {
+			return at.Len()
+		}
+	}
+	return 0
+}
+
 func (env *SpecEnv) elemGoType(name string) types.Type {
 	if !strings.HasPrefix(name, "[]") {
 		return nil
